@@ -86,7 +86,7 @@ class Interchain(Family):
                         tx["gdst"], tx["gidx"] = ["chainB:svc1", "chainC:svc1"], [1, 1]
                     steps.append({"step": "block", "txs": [tx]})
                 plans.append({"name": "model-%d-%d" % (ctx.seed, j), "audit": j % 3 == 0, "seed": 1, "prooftype": "serial", "chains": ["chainA", "chainB", "chainC"],
-                              "nsvc": 1, "black": {}, "steps": steps})
+                              "nsvc": 1, "black": {}, "unordered": ["chainC:svc1"], "steps": steps})
             pf = os.path.join(ctx.dir, "model-plans.json")
             json.dump(plans, open(pf, "w"))
             od = os.path.join(ctx.dir, "t-model")
